@@ -67,6 +67,7 @@ type GateFailure struct {
 	Msg    string
 	Source string
 	Files  map[string]string // the function with everything it references, as files of a package
+	Prog   *gen.Prog         // program the function was part of when it failed (for minimisation)
 }
 
 func (e *Env) NewBatch(p *gen.Prog) *Batch {
@@ -211,7 +212,7 @@ func (b *Batch) Compile(needUnopt bool) bool {
 				ev.Infra("compiler fails on the batch but on no single function: %s", msg)
 			}
 			b.Gate = append(b.Gate, GateFailure{Func: culprit.Name, Stage: "compile-panic", Msg: b.singleMsg(culprit), Source: b.Prog.RenderFunc(culprit, gen.Mode{}),
-				Files: filesOf(b.Prog.Subset(b.Prog.Closure(culprit.Name)))})
+				Files: filesOf(b.Prog.Subset(b.Prog.Closure(culprit.Name))), Prog: b.Prog.Subset(b.Prog.Closure(culprit.Name))})
 			b.Prog.Remove(culprit.Name)
 			continue
 		}
@@ -266,6 +267,7 @@ func (b *Batch) Compile(needUnopt bool) bool {
 			if f := b.Prog.Find(n); f != nil {
 				g.Source = b.Prog.RenderFunc(f, gen.Mode{})
 				g.Files = filesOf(b.Prog.Subset(b.Prog.Closure(n)))
+				g.Prog = b.Prog.Subset(b.Prog.Closure(n))
 			}
 			b.Gate = append(b.Gate, g)
 			b.Prog.Remove(n)
@@ -414,7 +416,9 @@ func (b *Batch) bisectPanic(msg string) *gen.Func {
 }
 
 // Run executes the batch binary with a spec and decodes its result.
-func (b *Batch) Run(sp driver.Spec) *driver.Result {
+func (b *Batch) Run(sp driver.Spec) *driver.Result { return b.runWith(sp, 20*time.Minute, true) }
+
+func (b *Batch) runWith(sp driver.Spec, timeout time.Duration, strict bool) *driver.Result {
 	sp.Digest = map[string]uint64{}
 	for _, f := range b.Prog.AllFuncs() {
 		sp.Digest[f.Name] = gen.Digest(b.Prog.RenderFunc(f, gen.Mode{}))
@@ -422,17 +426,23 @@ func (b *Batch) Run(sp driver.Spec) *driver.Result {
 	js, _ := json.Marshal(sp)
 	specPath := filepath.Join(b.Dir, "spec.json")
 	must(os.WriteFile(specPath, js, 0o644))
-	ctx, cancel := context.WithTimeout(context.Background(), 20*time.Minute)
+	ctx, cancel := context.WithTimeout(context.Background(), timeout)
 	defer cancel()
 	cmd := exec.CommandContext(ctx, filepath.Join(b.Dir, "run"), specPath)
 	var stderr bytes.Buffer
 	cmd.Stderr = &stderr
 	out, err := cmd.Output()
 	if err != nil {
+		if !strict {
+			return nil
+		}
 		ev.Infra("batch run binary failed: %v\n%s", err, firstLines(stderr.String(), 40))
 	}
 	var res driver.Result
 	if err := json.Unmarshal(out, &res); err != nil {
+		if !strict {
+			return nil
+		}
 		ev.Infra("batch run binary printed no result: %v\n%s", err, firstLines(string(out), 10))
 	}
 	return &res
